@@ -22,6 +22,11 @@ R32.5 contradiction rule: a node class X whose SQL handler (visit_X or a helper 
       component / scalar answer - and (b) _get_dataset_structure must have a branch for X.  Otherwise an enclosing operator
       (abs(X(DS)), X(DS)[filter …], X(DS) = X(DS)) takes the SELECT for a scalar expression or finds no structure: a raw DuckDB
       ParserException or a Python TypeError escapes run() (known findings: Analytic, TimeAggregation)
+R32.6 only the closure of referenced macros is installed, computed by sql/__init__.py from its own parse of the library files: that
+      parse (_macro_graph, evaluated by the E6 evaluator on the real file texts) must find exactly the MACRO / TYPE objects a
+      comment- and string-aware reading of the files finds, each with a parenthesis-balanced text; an object the splitter misses
+      (a `;` in a comment or string literal) is silently left out and the first statement that needs it fails with a raw
+      CatalogException
 Not decided: which DuckDB errors can occur for well-typed inputs; the fall-through of _map_query_error for unknown messages
 (recorded as a known finding with a demonstrated input).
 """
@@ -348,6 +353,22 @@ def run(rep: Report, tier: str) -> None:
     rep.rule("R32.4", "macros called by the load / fetch steps are installed under a condition on the datasets those steps work on")
     _macro_availability(P, rep, cg)
 
+    # ---- R32.1 (cont.): the coded exceptions the mappers build can be constructed (placeholders supplied; C26's rule on these sites) ----
+    from sa.checks import c26 as _c26
+    sub26 = Report("C26", tier)
+    _c26.run(sub26, tier)
+    nmap = 0
+    for f26 in sub26.findings:
+        if f26.file.startswith("src/vtlengine/duckdb_transpiler/io/"):
+            nmap += 1
+            rep.add(Finding("R32.1", f26.key.replace("R26.", "R32.1/R26."), f26.file, f26.line, f26.func,
+                            f26.message + " - raised while a DuckDB error is being converted, so the KeyError / TypeError escapes run() instead of the VTL error"))
+    rep.instance("R32.1", "mapper-exceptions-constructible", nontrivial=True, sample={"C26 findings at mapper sites": nmap})
+
+    # ---- R32.6 the minimal installer sees every object of the macro library, whole ----
+    rep.rule("R32.6", "the statement splitter of the minimal macro installer yields every MACRO / TYPE the library defines, with its complete text")
+    _installer_view(P, rep)
+
     # ---- R32.5 node classes with a dataset-level SQL form are datasets for the classifier and the structure dispatcher ----
     rep.rule("R32.5", "every node class whose SQL handler has a dataset-level form is classified as a possible dataset and has a structure for nested use")
     _dataset_form_agreement(P, rep)
@@ -609,3 +630,44 @@ def _dataset_form_agreement(P: Program, rep: Report) -> None:  # noqa: C901
                 rep.add(Finding("R32.5", f"R32.5/classifier-constant/{X}", gt.module.rel, bt[X][0].lineno, gt.qualname,
                                 f"{hf.name} has a dataset-level form but _get_node_type answers the constant {consts[0]} for every {X}: abs({X}(DS …)) is written as a scalar "
                                 f"function around a SELECT (DuckDB ParserException)"))
+
+
+def _installer_view(P: Program, rep: Report) -> None:
+    import re as _re
+    from sa.e6 import Interp, Raised, Unmodelled
+    SQLPKG = "vtlengine.duckdb_transpiler.sql"
+    f = P.func(f"{SQLPKG}._macro_graph")
+    m = P.module(SQLPKG)
+    files_node = m.assigns.get("_SQL_FILES")
+    names = [c.value for c in ast.walk(files_node) if isinstance(c, ast.Constant) and isinstance(c.value, str) and c.value.endswith(".sql")] if files_node is not None else []
+    if not names:
+        raise AnalysisError("sql/__init__.py: _SQL_FILES no longer lists the .sql files as constants")
+    sql_dir = P.root / "duckdb_transpiler" / "sql"
+    text = "\n".join((sql_dir / n).read_text() for n in names if (sql_dir / n).exists())
+    it = Interp(P, externals={"_read_full_sql": lambda: text, "_MacroGraph": lambda **kw: kw}, max_steps=3000000)
+    try:
+        g = it.call(f, {})
+    except (Unmodelled, Raised) as e:
+        raise AnalysisError(f"R32.6: _macro_graph outside the evaluator's language: {e}")
+    seen = dict(g["statements"])
+    # reference reading: comments and string literals removed, then CREATE … MACRO|TYPE name
+    stripped = _re.sub(r"--[^\n]*", "", text)
+    stripped = _re.sub(r"'(?:[^']|'')*'", "''", stripped)
+    defined = []
+    for mm in _re.finditer(r"\bCREATE\s+(?:OR\s+REPLACE\s+)?(MACRO|TYPE)\s+([A-Za-z_]\w*)", stripped, _re.I):
+        if mm.group(2) not in defined:
+            defined.append(mm.group(2))
+    rep.floor("R32.6 objects defined by the library", len(defined), 40)
+    rel = "src/vtlengine/duckdb_transpiler/sql/__init__.py"
+    for name in defined:
+        st = seen.get(name)
+        rep.instance("R32.6", f"object/{name}", nontrivial=True, sample={"seen_by_installer": st is not None})
+        if st is None:
+            rep.add(Finding("R32.6", f"R32.6/invisible/{name}", rel, f.node.lineno, f.qualname,
+                            f"the library defines {name} but the installer's statement splitter does not see it (a `;` in a comment or string literal before its CREATE splits the statement): "
+                            f"the minimal install silently leaves it out and the first query or fetch step that calls it fails with a raw CatalogException"))
+            continue
+        body = _re.sub(r"'(?:[^']|'')*'", "''", _re.sub(r"--[^\n]*", "", st))
+        if body.count("(") != body.count(")"):
+            rep.add(Finding("R32.6", f"R32.6/truncated/{name}", rel, f.node.lineno, f.qualname,
+                            f"the installer's text of {name} is not parenthesis-balanced: the splitter cut the statement at a `;` inside a comment or string literal, so installing it is a raw ParserException"))
